@@ -300,7 +300,7 @@ def flip(b, rnd):
     return b[:i] + bytes([b[i] ^ (1 << rnd.randrange(8))]) + b[i + 1:]
 
 
-CORR = ['none', 'none', 'none', 'scriptsig_ops', 'scriptsig_ops', 'sigbit', 'amount', 'output', 'sequence', 'locktime', 'drop_wit', 'extra_wit', 'empty_wit', 'proghash', 'control', 'wrong_key', 'scriptsig_junk', 'witscript_bit', 'wit_shape', 'tiny_scriptsig', 'spk_shape']
+CORR = ['none', 'none', 'none', 'scriptsig_ops', 'scriptsig_ops', 'wrap_p2sh', 'sigbit', 'amount', 'output', 'sequence', 'locktime', 'drop_wit', 'extra_wit', 'empty_wit', 'proghash', 'control', 'wrong_key', 'scriptsig_junk', 'witscript_bit', 'wit_shape', 'tiny_scriptsig', 'spk_shape']
 
 
 def fix_txid(c):
@@ -402,6 +402,13 @@ def corrupt(c, kind, rnd):
             vin['script'] = b'\x51\x63' + ss + b'\x68'
         else:
             vin['script'] = b'\x51\x63' + ss
+    elif kind == 'wrap_p2sh' and vin['wit'] and not vin['script']:
+        # a native witness output re-wrapped in pay-to-script-hash: fine for version 0 (the signatures do not commit to the wrapping), an UNKNOWN witness
+        # program for version 1 (BIP341 applies to native outputs only): anyone-can-spend unless discouraged, and not a supported output type
+        spk0 = fund.vout[c['pos']]['spk']
+        fund.vout[c['pos']]['spk'] = b'\xa9\x14' + h160(spk0) + b'\x87'
+        vin['script'] = P(spk0)
+        fix_txid(c)
     elif kind == 'spk_shape':
         # structurally odd scriptPubKey in the funding transaction: wrong push lengths inside P2SH / witness-program shapes
         spk = bytearray(fund.vout[c['pos']]['spk'])
